@@ -77,6 +77,15 @@ theorem crit_args_z (conf : Confidence Rex) (n : ℕ) (h : 100000 ≤ (n : ℝ) 
     simp [populationLimit, not_lt.mpr h]
   simp [critReq, this]
 
+/-- the request as a function of `n`: `t(n - 1)` below the population limit `100000`, `z` from
+    it on, in both cases at the probability `conf.quantile` -/
+theorem crit_args (conf : Confidence Rex) (n : ℕ) :
+    critReq conf (⟨(n : ℝ) - 1⟩ : Rex) =
+      if (n : ℝ) - 1 < 100000 then .t ⟨(n : ℝ) - 1⟩ conf.quantile else .z conf.quantile := by
+  by_cases h : (n : ℝ) - 1 < 100000
+  · rw [if_pos h]; exact crit_args_t conf n h
+  · rw [if_neg h]; exact crit_args_z conf n (not_lt.mp h)
+
 /-- two-sided: the model's `1 - (1 - L)/2` is `(1 + L)/2` -/
 theorem quantile_twoSided (l : Rex) : (Confidence.twoSided l).quantile.val = (1 + l.val) / 2 := by
   simp [Confidence.quantile]; ring
